@@ -139,6 +139,10 @@ func checkC03(sc *Scenario) *CheckOut {
 	if res.W.regPanic != "" {
 		return out // registration rejected the program: nothing to run (not this property's business)
 	}
+	if res.Abandoned {
+		out.Faults = map[string]int64{"pre-run-abandoned": 1}
+		return out
+	}
 	if res.Overrun {
 		out.Viol = append(out.Viol, Violation{"C03", "no-progress", fmt.Sprintf("run exceeded %d scheduler steps", len(res.Steps)), ""})
 		return out
